@@ -17,8 +17,10 @@
      Pause()/Resume(): pauseChan <- x / resumeChan <- x       Stop(): quit.Close()
 
    The environment (the etcd client and the callers): answers every client call ok or not
-   (MaxFail failures), ends keep-alive streams (MaxClose), lets time pass (tick), calls
-   KeepAlive / Pause / Resume / Stop.
+   (MaxFail failures), ends keep-alive streams (MaxClose), puts keep-alive responses on them
+   (MaxResp), lets time pass (tick), calls KeepAlive (only while no loop runs: the documented
+   usage) / Pause / Resume / Stop.  Its moves are the commands of a generated history:
+     ka | pause | resume | stop | reply ok | close l | resp l | tick
 
    Mode = "free": everything interleaves                                  (model checking)
    Mode = "rtc" : the environment moves only when the library cannot; its moves are kept in
@@ -31,7 +33,7 @@
    Variant = "nochk"        doKeepAlive does not look at quit             (wrong variant) *)
 EXTENDS Pub, Json
 
-CONSTANTS Id, MaxLease, MaxFail, MaxClose, MaxKa, MaxPause, MaxResume, MaxStop, Variant, Mode, Emit, MinCmd, MaxCmd
+CONSTANTS Id, MaxLease, MaxFail, MaxClose, MaxResp, MaxKa, MaxPause, MaxResume, MaxStop, Variant, Mode, Emit, MinCmd, MaxCmd
 
 VARIABLES
   th,        \* thread -> program counter; thread 0 is the KeepAlive() caller, 1.. are loops
@@ -41,11 +43,12 @@ VARIABLES
   kch,       \* lease -> "open" | "closed": the streams the client handed out
   nl,        \* leases granted
   pcp, pcr, pcs,             \* Pause / Resume / Stop caller: "idle" | "send" ("close") | "ret"
-  nfail, nclose, nka, npause, nresume, nstop,   \* environment budgets
+  nfail, nclose, nresp, nka, npause, nresume, nstop,   \* environment budgets
   viol,      \* first Layer-P guard that did not hold ("" = none)
   hist, ncmd
 
-ivars == <<th, chn, please, qcl, kch, nl, pcp, pcr, pcs, nfail, nclose, nka, npause, nresume, nstop>>
+bud == <<nfail, nclose, nresp, nka, npause, nresume, nstop>>
+ivars == <<th, chn, please, qcl, kch, nl, pcp, pcr, pcs, bud>>
 vars == <<pvars, ivars, viol, hist, ncmd>>
 
 Threads == DOMAIN th
@@ -54,10 +57,10 @@ Live == {t \in Loops : th[t] # "gone"}
 CallPcs == {"grant", "put", "ka", "rvL", "rvP", "rvQ"}
 
 IInit ==
-  /\ PStart(Id, 10)
+  /\ PStart(Cf(Id, 10, 1, 1))
   /\ th = [t \in {0} |-> "idle"] /\ chn = [t \in {0} |-> 0] /\ please = 0 /\ qcl = FALSE
   /\ kch = EmptyFn /\ nl = 0 /\ pcp = "idle" /\ pcr = "idle" /\ pcs = "idle"
-  /\ nfail = 0 /\ nclose = 0 /\ nka = 0 /\ npause = 0 /\ nresume = 0 /\ nstop = 0
+  /\ nfail = 0 /\ nclose = 0 /\ nresp = 0 /\ nka = 0 /\ npause = 0 /\ nresume = 0 /\ nstop = 0
   /\ viol = "" /\ hist = <<>> /\ ncmd = 0
 
 \* a step of the code that Layer P knows about: guard recorded, effect applied
@@ -82,7 +85,7 @@ LSel(t) ==
         /\ Set(t, "rvQ")
         /\ P("seeQuit", SeeQuitOK, SeeQuitEff)
         /\ UNCHANGED <<pcp, pcr>>
-  /\ UNCHANGED <<chn, please, qcl, kch, nl, pcs, nfail, nclose, nka, npause, nresume, nstop>> /\ NoLog
+  /\ UNCHANGED <<chn, please, qcl, kch, nl, pcs, bud>> /\ NoLog
 
 LPSel(t) ==
   /\ th[t] = "psel"
@@ -93,7 +96,7 @@ LPSel(t) ==
         /\ Set(t, "gone")
         /\ P("seeQuit", SeeQuitOK, SeeQuitEff)
         /\ UNCHANGED pcr
-  /\ UNCHANGED <<chn, please, qcl, kch, nl, pcp, pcs, nfail, nclose, nka, npause, nresume, nstop>> /\ NoLog
+  /\ UNCHANGED <<chn, please, qcl, kch, nl, pcp, pcs, bud>> /\ NoLog
 
 \* the tick has fired: select { <-quit: return; default: register }
 LChk(t) ==
@@ -101,33 +104,33 @@ LChk(t) ==
   /\ IF qcl /\ Variant # "nochk"
        THEN Set(t, "gone") /\ P("tick", TickOK(FALSE), TickEff(FALSE))
        ELSE Set(t, "grant") /\ P("tick", TickOK(TRUE), TickEff(TRUE))
-  /\ UNCHANGED <<chn, please, qcl, kch, nl, pcp, pcr, pcs, nfail, nclose, nka, npause, nresume, nstop>> /\ NoLog
+  /\ UNCHANGED <<chn, please, qcl, kch, nl, pcp, pcr, pcs, bud>> /\ NoLog
 
 LKaRet ==
   /\ th[0] \in {"retok", "reterr"}
   /\ Set(0, "idle")
   /\ P("kaRet", KaRetOK(th[0] = "reterr"), KaRetEff)
-  /\ UNCHANGED <<chn, please, qcl, kch, nl, pcp, pcr, pcs, nfail, nclose, nka, npause, nresume, nstop>> /\ NoLog
+  /\ UNCHANGED <<chn, please, qcl, kch, nl, pcp, pcr, pcs, bud>> /\ NoLog
 
 LPauseRet ==
   /\ pcp = "ret" /\ pcp' = "idle"
   /\ P("pauseRet", PauseRetOK, PauseRetEff)
-  /\ UNCHANGED <<th, chn, please, qcl, kch, nl, pcr, pcs, nfail, nclose, nka, npause, nresume, nstop>> /\ NoLog
+  /\ UNCHANGED <<th, chn, please, qcl, kch, nl, pcr, pcs, bud>> /\ NoLog
 
 LResumeRet ==
   /\ pcr = "ret" /\ pcr' = "idle"
   /\ P("resumeRet", ResumeRetOK, ResumeRetEff)
-  /\ UNCHANGED <<th, chn, please, qcl, kch, nl, pcp, pcs, nfail, nclose, nka, npause, nresume, nstop>> /\ NoLog
+  /\ UNCHANGED <<th, chn, please, qcl, kch, nl, pcp, pcs, bud>> /\ NoLog
 
 LStopClose ==
   /\ pcs = "close" /\ pcs' = "ret" /\ qcl' = TRUE
   /\ Internal
-  /\ UNCHANGED <<th, chn, please, kch, nl, pcp, pcr, nfail, nclose, nka, npause, nresume, nstop>> /\ NoLog
+  /\ UNCHANGED <<th, chn, please, kch, nl, pcp, pcr, bud>> /\ NoLog
 
 LStopRet ==
   /\ pcs = "ret" /\ pcs' = "idle"
   /\ P("stopRet", StopRetOK, StopRetEff)
-  /\ UNCHANGED <<th, chn, please, qcl, kch, nl, pcp, pcr, nfail, nclose, nka, npause, nresume, nstop>> /\ NoLog
+  /\ UNCHANGED <<th, chn, please, qcl, kch, nl, pcp, pcr, bud>> /\ NoLog
 
 LibStep == \/ \E t \in Loops : LSel(t) \/ LPSel(t) \/ LChk(t)
            \/ LKaRet \/ LPauseRet \/ LResumeRet \/ LStopClose \/ LStopRet
@@ -151,7 +154,7 @@ CReply(t, ok) ==
             /\ UNCHANGED <<chn, kch>>
        [] th[t] = "put" ->
             /\ Set(t, IF ok THEN "ka" ELSE Fail(t))
-            /\ P("put", PutOK(please, Kid, ok), PutEff(please, Kid, ok))
+            /\ P("put", PutOK(please, cf.key, Kid, cf.val, ok), PutEff(please, Kid, ok))
             /\ UNCHANGED <<chn, kch, nl, please>>
        [] th[t] = "ka" ->
             /\ IF ok THEN /\ kch' = Upd(kch, please, "open")
@@ -165,57 +168,87 @@ CReply(t, ok) ==
             /\ Set(t, CASE th[t] = "rvL" -> "wait" [] th[t] = "rvP" -> "psel" [] OTHER -> "gone")
             /\ P("revoke", RevokeOK(please, ok), RevokeEff(please, ok))
             /\ UNCHANGED <<chn, kch, nl, please>>
-  /\ UNCHANGED <<qcl, pcp, pcr, pcs, nclose, nka, npause, nresume, nstop>>
+  /\ UNCHANGED <<qcl, pcp, pcr, pcs, nclose, nka, npause, nresume, nstop, nresp>>
   /\ Log([c |-> "reply", ok |-> ok])
 
 CKa ==
   /\ EnvOK /\ th[0] = "idle" /\ Live = {} /\ nka < MaxKa
   /\ Set(0, "grant") /\ nka' = nka + 1
   /\ P("kaCall", KaCallOK, KaCallEff)
-  /\ UNCHANGED <<chn, please, qcl, kch, nl, pcp, pcr, pcs, nfail, nclose, npause, nresume, nstop>>
+  /\ UNCHANGED <<chn, please, qcl, kch, nl, pcp, pcr, pcs, nfail, nclose, npause, nresume, nstop, nresp>>
   /\ Log([c |-> "ka"])
 
 CPause ==
   /\ EnvOK /\ pcp = "idle" /\ npause < MaxPause
   /\ pcp' = "send" /\ npause' = npause + 1
   /\ P("pauseCall", PauseCallOK, PauseCallEff)
-  /\ UNCHANGED <<th, chn, please, qcl, kch, nl, pcr, pcs, nfail, nclose, nka, nresume, nstop>>
+  /\ UNCHANGED <<th, chn, please, qcl, kch, nl, pcr, pcs, nfail, nclose, nka, nresume, nstop, nresp>>
   /\ Log([c |-> "pause"])
 
 CResume ==
   /\ EnvOK /\ pcr = "idle" /\ nresume < MaxResume
   /\ pcr' = "send" /\ nresume' = nresume + 1
   /\ P("resumeCall", ResumeCallOK, ResumeCallEff)
-  /\ UNCHANGED <<th, chn, please, qcl, kch, nl, pcp, pcs, nfail, nclose, nka, npause, nstop>>
+  /\ UNCHANGED <<th, chn, please, qcl, kch, nl, pcp, pcs, nfail, nclose, nka, npause, nstop, nresp>>
   /\ Log([c |-> "resume"])
 
 CStop ==
   /\ EnvOK /\ pcs = "idle" /\ nstop < MaxStop
   /\ pcs' = "close" /\ nstop' = nstop + 1
   /\ P("stopCall", StopCallOK, StopCallEff)
-  /\ UNCHANGED <<th, chn, please, qcl, kch, nl, pcp, pcr, nfail, nclose, nka, npause, nresume>>
+  /\ UNCHANGED <<th, chn, please, qcl, kch, nl, pcp, pcr, nfail, nclose, nka, npause, nresume, nresp>>
   /\ Log([c |-> "stop"])
 
 CClose(L) ==
   /\ EnvOK /\ L \in DOMAIN kch /\ kch[L] = "open" /\ nclose < MaxClose
   /\ kch' = [kch EXCEPT ![L] = "closed"] /\ nclose' = nclose + 1
   /\ P("close", CloseOK(L), CloseEff(L))
-  /\ UNCHANGED <<th, chn, please, qcl, nl, pcp, pcr, pcs, nfail, nka, npause, nresume, nstop>>
-  /\ Log([c |-> "close"])
+  /\ UNCHANGED <<th, chn, please, qcl, nl, pcp, pcr, pcs, nfail, nka, npause, nresume, nstop, nresp>>
+  /\ Log([c |-> "close", l |-> L])
+
+\* a keep-alive response arrives on an open stream (the loop that selects on it, if any, takes it
+\* and selects again)
+CResp(L) ==
+  /\ EnvOK /\ L \in DOMAIN kch /\ kch[L] = "open" /\ nresp < MaxResp
+  /\ nresp' = nresp + 1
+  /\ P("karesp", KaRespOK(L), KaRespEff)
+  /\ UNCHANGED <<th, chn, please, qcl, kch, nl, pcp, pcr, pcs, nfail, nclose, nka, npause, nresume, nstop>>
+  /\ Log([c |-> "resp", l |-> L])
 
 \* time passes: the ticker of a waiting doKeepAlive fires
 CTick(t) ==
   /\ EnvOK /\ th[t] = "wait"
   /\ Set(t, "chk") /\ Internal
-  /\ UNCHANGED <<chn, please, qcl, kch, nl, pcp, pcr, pcs, nfail, nclose, nka, npause, nresume, nstop>>
+  /\ UNCHANGED <<chn, please, qcl, kch, nl, pcp, pcr, pcs, bud>>
   /\ Log([c |-> "tick"])
 
 EnvStep == \/ \E t \in Threads, ok \in BOOLEAN : CReply(t, ok)
            \/ CKa \/ CPause \/ CResume \/ CStop
-           \/ \E L \in DOMAIN kch : CClose(L)
+           \/ \E L \in DOMAIN kch : CClose(L) \/ CResp(L)
            \/ \E t \in Loops : CTick(t)
 
-INext == viol = "" /\ ncmd < MaxCmd /\ (LibStep /\ TRUE \/ EnvStep)
+\* one named action per step of the code / move of the environment (TLC -coverage: none is dead);
+\* exploration stops at the first step of the code that Layer P forbids
+Go == viol = ""
+EnvGo == viol = "" /\ ncmd < MaxCmd
+ASel       == Go /\ \E t \in Loops : LSel(t)
+APausedSel == Go /\ \E t \in Loops : LPSel(t)
+AChkQuit   == Go /\ \E t \in Loops : LChk(t)
+AKaRet     == Go /\ LKaRet
+APauseRet  == Go /\ LPauseRet
+AResumeRet == Go /\ LResumeRet
+AStopClose == Go /\ LStopClose
+AStopRet   == Go /\ LStopRet
+EReply     == EnvGo /\ \E t \in Threads, ok \in BOOLEAN : CReply(t, ok)
+EKa        == EnvGo /\ CKa
+EPause     == EnvGo /\ CPause
+EResume    == EnvGo /\ CResume
+EStop      == EnvGo /\ CStop
+EClose     == EnvGo /\ \E L \in DOMAIN kch : CClose(L)
+EResp      == EnvGo /\ \E L \in DOMAIN kch : CResp(L)
+ETick      == EnvGo /\ \E t \in Loops : CTick(t)
+INext == \/ ASel \/ APausedSel \/ AChkQuit \/ AKaRet \/ APauseRet \/ AResumeRet \/ AStopClose \/ AStopRet
+         \/ EReply \/ EKa \/ EPause \/ EResume \/ EStop \/ EClose \/ EResp \/ ETick
 ISpec == IInit /\ [][INext]_vars
 
 \* ------------------------------------------------------------------ what is checked
@@ -233,7 +266,7 @@ Where ==
             [] pc = "psel" -> "paused" [] pc \in {"wait", "chk"} -> "tick" [] OTHER -> "r" \o pc
 Agree == viol = "" => /\ ctl = Where
                       /\ cur = please
-                      /\ (quit = "closed") = (qcl /\ pcs = "idle")
+                      /\ (quit = "open") = (nstop = 0) /\ (quit = "closed" => qcl)
                       /\ \A L \in DOMAIN kch : gl[L].ka = kch[L]
 \* when nothing moves, the observation Layer P demands is the one the code offers
 Count(S) == Cardinality({t \in Loops : th[t] \in S})
